@@ -21,7 +21,7 @@ PID = "C16"
 RULE = ("schedules: (generator kind, start value, threads 2..3, draws 1..3 each) x every interleaving "
         "with <= 3 deviations (preemption at a line/call of next_sequence/next_id, or a non-default "
         "pick at a blocking point), enumerated exhaustively; random schedules with up to 6 deviations; "
-        "inputs: start values incl. MAX-2..MAX, start timestamps (boundary + random), sequential runs "
+        "inputs: start values incl. MAX-2..MAX and the carry from the low into the high 32-bit field of the session counter, start timestamps (boundary + random), sequential runs "
         "of 10^5 draws, session ids with 0..3 optional fields. Non-trivial: a schedule with >= 1 "
         "deviation, or a sequential run crossing the wrap; distinct by (configuration, schedule).")
 ASSUME = ["start values are injected through the code's own `random` calls (the shimmed module), start times through the virtual clock",
@@ -137,6 +137,7 @@ CONFIGS.append(("seq", 100, 2, (3, 3)))
 CONFIGS.append(("seq", 100, 3, (2, 2, 1)))
 CONFIGS.append(("sess", 77, 3, (2, 1, 1)))
 CONFIGS.append(("e2e", 0xffffe, 2, (2, 2)))
+CONFIGS.append(("sess", (0x1967cbd0 << 32) | (MAX32 - 1), 2, (2, 1)))      # carry into the high field under concurrency
 
 
 def install_points():
@@ -205,7 +206,9 @@ def sequential(rec, shard, thorough, scale):
     try:
         n = int((100000 if thorough or shard == 0 else 20000) * min(scale, 1.0)) or 1000
         for kind, starts in (("seq", [1, 12345, MAX32 - n // 2, MAX32 - 1, MAX32]),
-                             ("sess", [1, MAX64 - n // 2, MAX64 - 1, MAX64])):
+                             # session counters: also the carry from the low into the high 32-bit field
+                             ("sess", [1, MAX64 - n // 2, MAX64 - 1, MAX64, MAX32 - 1, MAX32, (0x1967cbd0 << 32) | (MAX32 - 2),
+                                       (0xfffffffe << 32) | (MAX32 - n // 2), (0x7fffffff << 32) | MAX32])):
             mx = MAX64 if kind == "sess" else MAX32
             for start in starts:
                 k.rng = ForcedRandom([start])
@@ -225,8 +228,10 @@ def sequential(rec, shard, thorough, scale):
                         ok = False
                         break
                     seen.add(v)
-                rec.case(sha("seq", kind, start) if start + n > mx else None,
-                         [f"sequential:{kind}", "sequential:wraps" if start + n > mx else "sequential:nowrap"],
+                carries = kind == "sess" and (start & MAX32) + n > MAX32
+                rec.case(sha("seq", kind, start) if start + n > mx or carries else None,
+                         [f"sequential:{kind}", "sequential:wraps" if start + n > mx else "sequential:nowrap"] +
+                         (["sequential:low-to-high-carry"] if carries else []),
                          sample=lambda: case, n=1)
         # end-to-end initialisation and session-id format
         Node = mods["node"].Node
@@ -275,7 +280,7 @@ def run(tier, scale=1.0):
     for d in hyp.pool_run(shard_main, (tier, scale)):
         rec.merge(d)
     required = {"gen:seq": 1, "gen:sess": 1, "deviations:3": 1, "wrap": 1, "random-schedule": 1,
-                "sequential:wraps": 1, "e2e-init": 1, "session-format": 1, "threads:3": 1}
+                "sequential:wraps": 1, "sequential:low-to-high-carry": 1, "e2e-init": 1, "session-format": 1, "threads:3": 1}
     return finish(rec, tier=tier, level="exploration", rule=RULE, assumptions=ASSUME, t0=t0,
                   exhaustive=True, required_classes=required,
                   extra_cov={"exhaustive_part": "all schedules with <= 3 deviations (<= 2 for the largest 3-thread configurations in quick) for every listed configuration"})
